@@ -36,4 +36,35 @@ LEVELS = {
           'That the hub never sends UpdateMinter is by inspection of the hub model (it emits only Mint and Burn to the tokens).',
   'technique': 'Lean 4 invariant proof over all token messages; differential correspondence + ledger oracle',
  },
+ 'C03': {
+  'text': 'Proved on the hub model for all states and amounts: query_actual_state reports floor(bonded*1e18/(supply+requested)) (1 when either is zero) for both tokens from the supplies and batch of the same moment (C03_reported_rates); '
+          'bond mints floor(payment/rate) less only the peg fee, exactly that above the threshold, and the minted tokens are never worth more than the payment; convert re-prices floor(tokens*rate) at the destination rate; '
+          'a batch is undelegated for floor(requests*rate) per token, the Undelegate messages sum to exactly that (via the C12 theorems) and the books fall by it; a payment is always positive. '
+          'Every implementation step re-derives the rates from State/TokenInfo/CurrentBatch and the minted amounts from the pre-state rate.',
+  'note': 'Trusted: Lean kernel; model of contract.rs/bond.rs/unbond.rs/convert.rs/math.rs; u128/U256 overflow not modelled (envelope E1). The statement is about the stored and queried state of the model; the tie to the Rust is the per-operation diff of hub.raw/hub.q/batch/supplies.',
+  'technique': 'Lean 4 theorems via handler characterisation lemmas; differential correspondence + exact recomputation oracle',
+ },
+ 'C04': {
+  'text': 'For bond (bSei, stSei, rewards), unbond request, batch undelegation, and both converts: if the rate the operation starts from is a true ratio (rate*claims <= backing*1e18, which rateOf guarantees whenever the pool is backed) and positive, '
+          'the ratio after the operation is at least that rate, or the claims became zero (definitional reset) - proved in Lean for all amounts (C04_*); BondRewards emits only Delegate messages (mints nothing); '
+          'coin value floor(balance*rate) is monotone in the rate and lifts over any slash-free history (C04_history_mono). The premise fails exactly in the zero-backed state (booked stake 0, claims > 0, reported rate 1), '
+          'where a bond or convert lowers the rate: proved as C04_zero_backed_counterexample, replayed on the real hub from corpus/D6a.ops and listed as known finding D6. PARTIAL: theorems carry the true-ratio premise.',
+  'note': 'Trusted: Lean kernel; hub model; the link from per-operation theorems to the reported (queried) rate is C03_reported_rates plus the differential check. Known finding D6 (zero-backed pool after a slash floors a dust pool to 0).',
+  'technique': 'Lean 4 per-operation monotonicity lemmas + induction over histories; before/after rate oracle on every implementation step',
+ },
+ 'C05': {
+  'text': 'Fee bounds proved for both fee formulas (C05_fee_on_mint, C05_fee_on_burn): fee >= 0, fee <= amount*peg_recovery_fee, no fee at or above the threshold; never past the peg proved for bond, convert stSei->bSei and unbond '
+          '(backing <= claims after the request; < 2 units above the remaining claims after an undelegation in the same transaction, C05_unbond_not_past_peg). '
+          'Convert bSei->stSei is proved only under the exact cap fee*B <= (C-B)(C-a) (C05_convert_bsei_stsei_partial); the code caps by the current gap instead and over-collects: '
+          'C05_convert_bsei_stsei_counterexample (decide) = corpus/D2.ops on the real hub (rate 0.9 -> 1.08), known finding D2.',
+  'note': 'Trusted: Lean kernel (nlinarith from one Mathlib module in Lemmas/Arith.lean), hub model. PARTIAL for the fourth path: known finding D2.',
+  'technique': 'Lean 4 arithmetic theorems (omega, nlinarith) on the fee formulas; peg oracle on every fee-charging implementation step',
+ },
+ 'C06': {
+  'text': 'C06_recognised_exactly: when books exceed the surviving delegation, the check sets books to exactly that amount, the bSei pool to its exact pro-rata share within 2 base units from below (never above), the stSei pool the remainder (within 2 from above) - proved for all pool sizes incl. an empty pool, for delegated totals <= 1e18; '
+          'C06_no_slash_no_change / C06_never_raises: otherwise nothing changes and no check ever raises a pool; C06_release_group_pro_rata: the loss charged to a batch side is its pro-rata share within 2 units. '
+          'Every CheckSlashing executed on the real hub is compared with the exact shares.',
+  'note': 'Trusted: Lean kernel (+ Mathlib nlinarith in Lemmas/Arith.lean); hub model; A-CHAIN-3 (delegations are token amounts; a delegation object survives a slash to zero).',
+  'technique': 'Lean 4 nonlinear floor-arithmetic bounds; exact-share oracle on implementation checks',
+ },
 }
